@@ -8,6 +8,7 @@ import Driver.Common
 import Driver.C08
 import Driver.FC
 import Driver.Seq
+import Driver.BS
 
 open Driver
 
@@ -16,6 +17,7 @@ inductive Eng where
   | c08 (s : Driver.C08.St)
   | fc (s : Driver.FC.St)
   | seq (s : Driver.Seq.St)
+  | bs (s : Driver.BS.St)
 
 structure DState where
   eng : Eng := .none
@@ -35,6 +37,7 @@ def newEngine (hdr : Args) : Eng :=
   | "c08" => .c08 {}
   | "fc" => .fc {}
   | "seq" => .seq {}
+  | "bs" => .bs {}
   | _ => .none
 
 def stepEng (e : Eng) (l : Line) : Eng × List Msg :=
@@ -43,6 +46,7 @@ def stepEng (e : Eng) (l : Line) : Eng × List Msg :=
   | .c08 s => let (s', m) := Driver.C08.step s l; (.c08 s', m)
   | .fc s => let (s', m) := Driver.FC.step s l; (.fc s', m)
   | .seq s => let (s', m) := Driver.Seq.step s l; (.seq s', m)
+  | .bs s => let (s', m) := Driver.BS.step s l; (.bs s', m)
 
 partial def loop (h : IO.FS.Stream) (out : IO.FS.Stream) (st : DState) : IO Unit := do
   let line ← h.getLine
